@@ -988,3 +988,14 @@ def run(res, facts, tier):
     _run_c04_prev_declenc(res, facts, tier)
     from . import c04_declenc
     c04_declenc.run_rule(res, facts, tier)
+
+
+_run_c04_prev_attrset = run
+
+
+def run(res, facts, tier):
+    _run_c04_prev_attrset(res, facts, tier)
+    from . import c04_attrset
+    c04_attrset.run_rule(res, facts, tier)
+    from . import c04_split
+    c04_split.run_rule(res, facts, tier)
